@@ -72,7 +72,9 @@ static void zdtRoundTrip(const TimeZone& tz, const TimeZone& other, int32_t t) {
   __verif_observe("zoff", z.timeOffset().toMinutes());
   __verif_assert(!z.isError(), "zoned not-error");
   __verif_assert(z.toEpochSeconds() == t, "ZonedDateTime: toEpochSeconds(forEpochSeconds(t,tz))==t");
-  __verif_assert(z.toUnixSeconds() == t + 946684800 || t > 2147483647 - 946684800, "unix difference");
+  if (t <= 2147483647 - 946684800) {   // Unix seconds are representable only until 2038-01-19 (documented)
+    __verif_assert(z.toUnixSeconds() == t + 946684800, "unix difference");
+  }
   __verif_assert(z.timeOffset().toMinutes() == tz.getUtcOffset(t).toMinutes(), "offset used is getUtcOffset(t)");
   ZonedDateTime w = z.convertToTimeZone(other);
   __verif_assert(!w.isError() && w.toEpochSeconds() == t, "convertToTimeZone keeps the epoch seconds");
